@@ -6,6 +6,8 @@ regenerated from trimesh/resources/creation.json on every run (Generated/C15Tabl
 import TrimeshVerif.Proofs.Creation
 import TrimeshVerif.Proofs.RevolveGrid
 import TrimeshVerif.Proofs.RevolveOpen
+import TrimeshVerif.Proofs.RevolveRing
+import TrimeshVerif.Proofs.RevolveLoopOpen
 import TrimeshVerif.Proofs.Extrude
 namespace TV.C15
 open TV.Query TV.Creation
@@ -149,6 +151,49 @@ example : TV.RevolveGrid.capOk 4 [(0, 1, 2), (0, 2, 3), (0, 3, 4)] = true
     ∧ TV.RevolveGrid.capOk 4 [(2, 1, 0), (3, 2, 0), (4, 3, 0)] = false
     ∧ TV.RevolveGrid.closedB (TV.RevolveGrid.openSurface 5 2 [(0, 1, 2), (0, 2, 3), (0, 3, 4)]) = true
     ∧ TV.RevolveGrid.closedB (TV.RevolveGrid.openSurface 5 2 [(2, 1, 0), (3, 2, 0), (4, 3, 0)]) = false := by
+  decide +kernel
+
+/-- **a full turn of a closed profile (annulus, any linestring that returns to its first point away from the
+    axis) is closed and consistently wound**, for every profile length and every number of sections: both
+    triangles of every profile segment are kept, the wrap-around quad is dropped, the last row of vertices is
+    merged into the first -/
+theorem C15_revolve_ring_closed (per slices : Nat) (hper : 2 ≤ per) :
+    TV.RevolveGrid.Closed (TV.RevolveGrid.ringSurface per slices) :=
+  TV.RevolveGrid.ring_closed per slices hper
+
+/-- the faces of that theorem are what the index arithmetic of `revolve` produces when exactly the two triangles
+    of the wrap-around quad are dropped -/
+theorem C15_revolve_ring_grid_is_code (per slices : Nat) (hper : 2 ≤ per) :
+    TV.RevolveGrid.gridFacesR per slices =
+      revolveFaces per slices (per * slices) (TV.RevolveGrid.ringKeep per) :=
+  TV.RevolveGrid.gridR_eq_revolveFaces per slices hper
+
+/-- **a full turn of an open loop (the profile `torus` passes) is closed and consistently wound**: nothing is
+    dropped and nothing merged, the statement is about the face array of the index model itself -/
+theorem C15_revolve_torus_closed (per slices : Nat) (hper : 0 < per) :
+    TV.RevolveGrid.Closed (revolveFaces per slices (per * slices) (fun _ => true)) :=
+  TV.RevolveGrid.torus_closed per slices hper
+
+/-- **a partial turn of an open loop with caps is closed and consistently wound**, for every profile length,
+    every number of sections and every cap triangulation that names profile points only and whose directed
+    edges are the loop in profile order plus interior edges in opposite pairs.  (On the tree before the repair
+    recorded for C15 the quad of the last profile point pointed one section further and this failed.) -/
+theorem C15_revolve_loop_open_closed (per slices : Nat) (hper : 0 < per) (T : List TV.RevolveGrid.Face)
+    (hT : TV.RevolveGrid.capOkC per T = true) (hR : TV.RevolveGrid.capInRange per T = true) :
+    TV.RevolveGrid.Closed (TV.RevolveGrid.openLoopRaw per slices T) :=
+  TV.RevolveGrid.loop_open_closed per slices hper T hT hR
+
+/-- non-vacuity, and the index pattern before the repair as a counterexample: with the last quad joined to the
+    first point of the slices after (`(i + 1, per + i, per + i + 1)` for `i = per - 1`) a capped half turn of a
+    square loop is not closed -/
+example : TV.RevolveGrid.capOkC 4 [(0, 1, 2), (0, 2, 3)] = true ∧ TV.RevolveGrid.capInRange 4 [(0, 1, 2), (0, 2, 3)] = true
+    ∧ TV.RevolveGrid.closedB (TV.RevolveGrid.openLoopRaw 4 2 [(0, 1, 2), (0, 2, 3)]) = true
+    ∧ TV.RevolveGrid.closedB (TV.RevolveGrid.ringSurface 5 3) = true
+    ∧ TV.RevolveGrid.closedB (revolveFaces 4 3 12 (fun _ => true)) = true
+    ∧ (let old : List Face := (List.range 2).flatMap (fun j => ((List.range 4).flatMap (fun i =>
+          [(i, 4 + i, i + 1), (i + 1, 4 + i, 4 + i + 1)])).map
+          (fun f => ((f.1 + j * 4) % 12, (f.2.1 + j * 4) % 12, (f.2.2 + j * 4) % 12)))
+       TV.RevolveGrid.closedB (old ++ [(0, 1, 2), (0, 2, 3)] ++ [(10, 9, 8), (11, 10, 8)]) = false) := by
   decide +kernel
 
 end TV.C15
